@@ -213,7 +213,8 @@ func (p *project) targets() []projTarget {
 			out = append(out, projTarget{f, id, off, k})
 		}
 	}
-	sort.Slice(out, func(i, j int) bool { return out[i].Key < out[j].Key })
+	// directory walk order is the order of the file names
+	sort.Slice(out, func(i, j int) bool { return out[i].Key+".ra" < out[j].Key+".ra" })
 	return out
 }
 
